@@ -174,6 +174,33 @@ func (c *c38Checker) pair(label string, kind int, a, b ReplicatedData, slots []i
 	r.CaseH(key, rab != ra && rab != rb)
 }
 
+// successor checks that a replica's current state absorbs its own earlier state
+// e (cur was reached from e by local ops and merges only): merging the stale
+// copy back must not revert anything, in particular not a remove or overwrite.
+func (c *c38Checker) successor(label string, e, cur ReplicatedData, slot int, hist func() string, what string) {
+	re, rc := c38Raw(e), c38Raw(cur)
+	if re == rc {
+		return
+	}
+	key := verifrt.Hash64("S|" + label + "|" + re + "|" + rc)
+	if _, dup := c.seen[key]; dup {
+		return
+	}
+	c.seen[key] = struct{}{}
+	r := c.r
+	vc := c38Val(cur)
+	for i, m := range []ReplicatedData{e.Merge(cur), cur.Merge(e)} {
+		r.Count("merges", 1)
+		if vm := c38Val(m); vm != vc {
+			r.Violation("merge-with-own-earlier-state-reverts:"+label+":"+c38DiffClass(m, cur), c38MkWit(hist, []int{slot, slot}, []ReplicatedData{e, cur}, map[string]string{"relation": what, "order": []string{"earlier+current", "current+earlier"}[i], "current": vc, "merged": vm}))
+			break
+		} else if c38Raw(m) != rc {
+			r.Count("metadata_divergence_successor", 1)
+		}
+	}
+	r.CaseH(key, c38Val(e) != vc)
+}
+
 // triple checks that every order and bracketing of merging three states gives
 // the same observable value.
 func (c *c38Checker) triple(label string, a, b, d ReplicatedData, slots []int, hist func() string) {
@@ -285,8 +312,7 @@ type c38Cfg struct {
 // c38Bounded explores breadth-first every execution of the configuration (ops of
 // the bounded alphabet at the active slots and merges between slots), worlds
 // deduplicated by replicated state, until maxWorlds distinct worlds were
-// expanded; the laws are checked on the current states of every world whose
-// index falls into this batch.
+// expanded; the laws are checked on the current states of every world.
 func (c *c38Checker) c38Bounded(cfg c38Cfg) {
 	r := c.r
 	label := c38Label(cfg.kind, cfg.lwwMode)
@@ -305,7 +331,7 @@ func (c *c38Checker) c38Bounded(cfg c38Cfg) {
 		if n.depth > maxDepth {
 			maxDepth = n.depth
 		}
-		if idx%r.NBatch == r.Batch {
+		{
 			hist := n.history
 			probe := ops[idx%len(ops)]
 			for i := 0; i < nslots; i++ {
@@ -335,7 +361,11 @@ func (c *c38Checker) c38Bounded(cfg c38Cfg) {
 						continue
 					}
 					seen[k] = struct{}{}
-					queue = append(queue, &c38Node2{w: w2, parent: n, step: fmt.Sprintf("%s:%s", c38Node(i), op.str(cfg.kind, 0)), depth: n.depth + 1})
+					child := &c38Node2{w: w2, parent: n, step: fmt.Sprintf("%s:%s", c38Node(i), op.str(cfg.kind, 0)), depth: n.depth + 1}
+					queue = append(queue, child)
+					for anc := n; anc != nil; anc = anc.parent {
+						c.successor(label, anc.w.st[i], w2.st[i], i, child.history, "earlier state of the same replica")
+					}
 				}
 			}
 			for j := 0; j < nslots; j++ {
@@ -354,7 +384,7 @@ func (c *c38Checker) c38Bounded(cfg c38Cfg) {
 		}
 	}
 	r.Count("bounded_worlds_"+label, int64(idx))
-	if r.Batch == 0 {
+	{
 		r.Note("bounded %s active=%d passive=%d elems=%d: %d worlds expanded, depth reached %d, exhausted=%v", label, cfg.nActive, cfg.nPassive, cfg.nElems, idx, maxDepth, len(queue) == 0)
 	}
 	if len(queue) == 0 {
@@ -380,11 +410,12 @@ func (c *c38Checker) c38Random(rng *rand.Rand, kind, lwwMode int) {
 		d    ReplicatedData
 		deep string
 		at   int
+		slot int
 	}
 	var all []kept
-	keep := func(d ReplicatedData) {
+	keep := func(d ReplicatedData, slot int) {
 		if len(all) < 400 {
-			all = append(all, kept{d, c38Deep(d), len(hist)})
+			all = append(all, kept{d, c38Deep(d), len(hist), slot})
 		}
 	}
 	for s := 0; s < steps; s++ {
@@ -393,7 +424,7 @@ func (c *c38Checker) c38Random(rng *rand.Rand, kind, lwwMode int) {
 			op := w.randOp(rng, i)
 			if w.apply(i, op) {
 				hist = append(hist, fmt.Sprintf("%s:%s", c38Node(i), op.str(kind, 0)))
-				keep(w.st[i])
+				keep(w.st[i], i)
 			}
 		} else {
 			i := rng.Intn(nslots)
@@ -403,7 +434,7 @@ func (c *c38Checker) c38Random(rng *rand.Rand, kind, lwwMode int) {
 			}
 			w.merge(i, j)
 			hist = append(hist, fmt.Sprintf("%s<-merge(%s)", c38Node(i), c38Node(j)))
-			keep(w.st[i])
+			keep(w.st[i], i)
 		}
 		if s%5 == 4 {
 			i, j, k := rng.Intn(nslots), rng.Intn(nslots), rng.Intn(nslots)
@@ -433,6 +464,10 @@ func (c *c38Checker) c38Random(rng *rand.Rand, kind, lwwMode int) {
 			c.triple(label, x.d, w.st[i], w.st[j], []int{-1, i, j}, histFn)
 		}
 	}
+	for t := 0; t < 12 && len(all) > 0; t++ {
+		x := all[rng.Intn(len(all))]
+		c.successor(label, x.d, w.st[x.slot], x.slot, histFn, fmt.Sprintf("state of the same replica after step %d", x.at))
+	}
 	for _, x := range all {
 		if c38Deep(x.d) != x.deep {
 			r.Violation("earlier-state-modified:"+label, map[string]any{"history": histFn(), "created_after_step": x.at, "then": x.deep, "now": c38Deep(x.d)})
@@ -448,40 +483,44 @@ func (c *c38Checker) c38Random(rng *rand.Rand, kind, lwwMode int) {
 func TestVerif_C38(t *testing.T) {
 	r := verifrt.Start(t, "C38")
 	defer r.Finish()
-	r.Rule("case = one pair or triple of jointly reachable states of one CRDT type (current states of the slots of one execution: 2-3 replicas with own node ids performing ops, plus passive slots holding merged/old copies), from (a) breadth-first enumeration of all executions over a bounded op alphabet (elements {x,y}, worlds deduplicated by replicated state) and (b) random executions (<=30 ops per replica, 2-7 mixed-type elements, OR-maps with all seven nested value types); oracle = observable-value equality of a+b/b+a, all 12 orders and bracketings of a,b,c, x+x=x, (a+b)+a=a+b, observable inflation (nothing disappears without a covering remove/write), deep snapshots (incl. delta tracking) of all inputs before/after Merge, Clone and later ops on results; raw-state-only differences are counted as metadata_divergence; non-trivial = the states are pairwise concurrent (the merge equals neither input); distinct by type and raw states")
+	r.Rule("case = one pair or triple of jointly reachable states of one CRDT type (current states of the slots of one execution: 2-3 replicas with own node ids performing ops, plus passive slots holding merged/old copies), from (a) breadth-first enumeration of all executions over a bounded op alphabet (elements {x,y}, worlds deduplicated by replicated state) and (b) random executions (<=30 ops per replica, 2-7 mixed-type elements, OR-maps with all seven nested value types); oracle = observable-value equality of a+b/b+a, all 12 orders and bracketings of a,b,c, x+x=x, (a+b)+a=a+b, earlier-state-of-a-replica + its current state = current state (a stale copy merged back reverts nothing), observable inflation (nothing disappears without a covering remove/write), deep snapshots (incl. delta tracking) of all inputs before/after Merge, Clone and later ops on results; raw-state-only differences are counted as metadata_divergence; non-trivial = the states are pairwise concurrent (the merge equals neither input); distinct by type and raw states")
 	r.Assume("each replica mutates under its own node id and node ids are not reused after state loss (dots are unique); ORMap values of one key have one CRDT type on all replicas")
 	r.Assume("LWWRegister main domain: a node's own timestamps strictly increase; equal timestamps only across nodes. The other two timestamp domains are evaluated and reported under their own label")
 
 	c := &c38Checker{r: r, seen: map[uint64]struct{}{}}
 	q := func(n int) int { return n }
 	cfgs := []c38Cfg{
-		{c38KGCounter, 2, 1, 0, 0, q(600), 20000},
-		{c38KGCounter, 3, 0, 0, 0, q(600), 30000},
-		{c38KPNCounter, 2, 1, 0, 0, q(600), 20000},
-		{c38KPNCounter, 3, 0, 0, 0, q(600), 30000},
-		{c38KFlag, 3, 1, 0, 0, q(200), 2000},
-		{c38KLWW, 2, 1, 0, c38LWWMain, q(1200), 40000},
-		{c38KLWW, 3, 0, 0, c38LWWMain, q(1200), 60000},
-		{c38KLWW, 2, 1, 0, c38LWWSameTick, q(400), 20000},
-		{c38KLWW, 2, 1, 0, c38LWWBackward, q(400), 20000},
+		// ordered so that batch b (configs b, b+8, b+16) gets a balanced share
+		{c38KORMap, 2, 1, 2, 0, q(600), 60000},
+		{c38KORMap, 3, 0, 2, 0, q(600), 80000},
+		{c38KORSet, 3, 0, 2, 0, q(1200), 120000},
+		{c38KORSet, 2, 1, 2, 0, q(1200), 80000},
+		{c38KMV, 3, 0, 0, 0, q(1200), 80000},
 		{c38KMV, 2, 1, 0, 0, q(1200), 40000},
-		{c38KMV, 3, 0, 0, 0, q(1500), 80000},
-		{c38KORSet, 2, 1, 1, 0, q(800), 30000},
-		{c38KORSet, 2, 1, 2, 0, q(1500), 80000},
-		{c38KORSet, 3, 0, 2, 0, q(2000), 120000},
-		{c38KORMap, 2, 1, 1, 0, q(800), 30000},
-		{c38KORMap, 2, 1, 2, 0, q(1500), 60000},
-		{c38KORMap, 3, 0, 2, 0, q(1500), 80000},
+		{c38KLWW, 3, 0, 0, c38LWWMain, q(1200), 60000},
+		{c38KLWW, 2, 1, 0, c38LWWMain, q(1200), 40000},
+		{c38KFlag, 3, 1, 0, 0, q(200), 2000},
+		{c38KGCounter, 2, 1, 0, 0, q(1000), 20000},
+		{c38KGCounter, 3, 0, 0, 0, q(1000), 30000},
+		{c38KPNCounter, 2, 1, 0, 0, q(1000), 20000},
+		{c38KPNCounter, 3, 0, 0, 0, q(1000), 30000},
+		{c38KLWW, 2, 1, 0, c38LWWSameTick, q(600), 20000},
+		{c38KLWW, 2, 1, 0, c38LWWBackward, q(600), 20000},
+		{c38KORSet, 2, 1, 1, 0, q(1000), 30000},
+		{c38KORMap, 2, 1, 1, 0, q(400), 30000},
 	}
-	for _, cfg := range cfgs {
-		c.c38Bounded(cfg)
+	// each configuration is enumerated by exactly one batch
+	for i, cfg := range cfgs {
+		if i%r.NBatch == r.Batch {
+			c.c38Bounded(cfg)
+		}
 	}
 
 	rng := r.Rand(1)
 	type kd struct{ kind, mode int }
 	kinds := []kd{{c38KGCounter, 0}, {c38KPNCounter, 0}, {c38KFlag, 0}, {c38KLWW, c38LWWMain}, {c38KMV, 0}, {c38KORSet, 0}, {c38KORMap, 0},
 		{c38KORSet, 0}, {c38KORMap, 0}, {c38KMV, 0}, {c38KLWW, c38LWWSameTick}, {c38KLWW, c38LWWBackward}}
-	n := r.N(1800, 120000)
+	n := r.N(1000, 120000)
 	for i := 0; i < n; i++ {
 		k := kinds[i%len(kinds)]
 		c.c38Random(rng, k.kind, k.mode)
